@@ -50,8 +50,9 @@ NotifIn(st) == {i \in Ids : kind[i] \in NotifKinds /\ hst[i] = st}
 
 Logged ==
   \* ---- the peer, as the proxy saw it (logged before the bytes are forwarded)
-  \/ Is("send") /\ Ev.id \in Ids /\ ClientSend(Ev.id) /\ Same
-  \/ Is("sendcancel") /\ Ev.id \in Ids /\ ClientCancel(Ev.id) /\ Same
+  \* (a frame the proxy took from the client after the link was already gone never reaches the server)
+  \/ Is("send") /\ Ev.id \in Ids /\ (IF peer = "up" THEN ClientSend(Ev.id) ELSE UNCHANGED vars) /\ Same
+  \/ Is("sendcancel") /\ Ev.id \in Ids /\ (IF peer = "up" THEN ClientCancel(Ev.id) ELSE UNCHANGED vars) /\ Same
   \/ Is("peerclose") /\ (IF peer = "up" THEN PeerGone("closed") ELSE UNCHANGED vars) /\ Same
   \* ---- reader and main loop
   \/ Is("rd.msg") /\ RdNext /\ Same
